@@ -206,8 +206,40 @@ def build_driver(name, flavour="plain", extra_src=(), cflags=(), ldflags=()):
     return exe, px
 
 
+def sanitize_trace(path):
+    """A driver that dies inside the library while a line is half written (and whose signal handler then logs the
+       crash) leaves an incomplete JSON line in the MIDDLE of the trace.  Replace every such line by a Crash event:
+       TLC must judge the crash (no action matches it), not stumble over the syntax."""
+    try:
+        data = open(path, "rb").read()
+    except OSError:
+        return
+    if not data:
+        return
+    complete = data.endswith(b"\n")
+    lines = data.split(b"\n")
+    last = lines.pop()            # text after the final newline (b"" if the file ends with one)
+    out, changed = [], False
+    for ln in lines:
+        t = ln.strip()
+        if not t:
+            changed = True
+            continue
+        if t.startswith(b"{") and t.endswith(b"}"):
+            out.append(ln)
+        else:
+            out.append(b'{"e":"Crash","partial_line":true}')
+            changed = True
+    if changed:
+        with open(path, "wb") as f:
+            f.write(b"\n".join(out) + b"\n")
+            if not complete:
+                f.write(last)
+
+
 def clean_tail(path):
     """Remove a trailing partial line (a driver killed in mid-write) so that the file stays parseable NDJSON."""
+    sanitize_trace(path)
     try:
         data = open(path, "rb").read()
     except OSError:
@@ -235,6 +267,7 @@ def run_driver(cmd, trace, env=None, timeout=900, cwd=None):
         rc, out = p.returncode, p.stdout or ""
     except subprocess.TimeoutExpired as ex:
         rc, out = -999, "timeout after %ds\n%s" % (timeout, (ex.stdout or b"")[-2000:] if isinstance(ex.stdout, bytes) else "")
+    sanitize_trace(trace)
     if rc != 0:
         clean_tail(trace)
         tail = ""
